@@ -615,6 +615,24 @@ int32_t psCRL_determineRevokedStatusBDT(psX509Cert_t *cert,
         {
             psTraceCrypto("Unexpected revoked/authenticated combo\n");
         }
+        /* The cache may hold more than one CRL of this issuer (psCRL_Insert
+           appends): a revocation listed in any authenticated one counts,
+           not only what the first one says. */
+        if (cert->revokedStatus != CRL_CHECK_REVOKED_AND_AUTHENTICATED)
+        {
+            psX509Crl_t *other;
+
+            for (other = crl->next; other != NULL; other = other->next)
+            {
+                if (internalMatchSubject(cert, other) == PS_TRUE &&
+                    other->authenticated == 1 &&
+                    internalCrlIsRevoked(cert, other, bdt) == 1)
+                {
+                    cert->revokedStatus = CRL_CHECK_REVOKED_AND_AUTHENTICATED;
+                    break;
+                }
+            }
+        }
     }
     else
     {
